@@ -1173,9 +1173,23 @@ def workload(ctx):
                 ctx.run("C04.walk", (e, args, kw, ()))
                 ctx.run("C04.identity", (e, args, kw))
                 ctx.run("C04.combine", (e, args, kw))
+        # arrays of plain numbers (every numeric dtype), at the root and inside containers:
+        # their entries are constants like any other
+        xv_ = p.Variable("x")
+        for i, arr in enumerate([np.array([1, 2, 3]), np.array([1.5, 2.5]), np.array([[1, 2], [3, 4]]),
+                                 np.array([1 + 2j, 3j]), np.array([True, False]), np.array([7], dtype=np.int8),
+                                 np.array([0.5], dtype=np.float32), np.arange(40), np.zeros((2, 3))]):
+            obj = np.empty(3, dtype=object)
+            obj[0], obj[1], obj[2] = xv_, arr, p.Sum((xv_, 2))
+            for e in (arr, [arr, xv_], (p.Sum((xv_, 1)), arr), obj, [arr, arr]):
+                if ctx.mine("numeric-arrays"):
+                    ctx.case(("numeric-array", i, type(e).__name__), True, n=0)
+                    ctx.count("numeric_dtype_arrays")
+                    ctx.run("C04.combine", (e, (), {}))
         for k, v in tr.handlers().items():
             ctx.count("handler:" + k, v)
     ctx.floor("wide_nodes", 250)
+    ctx.floor("numeric_dtype_arrays", 40)
     ctx.floor("evolving_dispatches", 300)
     ctx.floor("explicit_same_as_parent", 10)
     ctx.floor("kind_rewrites", 800)
